@@ -411,7 +411,7 @@ func TestVerif_C02(t *testing.T) {
 	vkRequestWatchdog = 120 * time.Second // a request that never returns is a finding, not a worker timeout
 	base := vkBase("c02")
 	defer os.RemoveAll(base)
-	R.Rule = "configuration = non-empty subset of 3 generated epochs (0 with genesis, 1, 2; skipped slots, multi-entry blocks, linked-frame metadata and rewards, vote/failed/no-metadata transactions, parents in the previous epoch) x epoch-search concurrency x request order (cold / warm shared cache), plus configurations that serve all epochs or only the middle one through the deprecated index formats (size-less cid-to-offset index, deprecated sig-exists index); under each configuration EVERY archived slot and signature is requested through JSON-RPC getBlock/getTransaction/getBlockTime in each encoding and gRPC GetBlock/GetTransaction/GetBlockTime (direct and through the Get stream) and compared with generator-side ground truth; non-trivial = request whose answer contains transaction payloads"
+	R.Rule = "configuration = non-empty subset of 3 generated epochs (0 with genesis, 1, 2; skipped slots, multi-entry blocks, linked-frame metadata and rewards, vote/failed/no-metadata transactions, parents in the previous epoch) x epoch-search concurrency x request order (ascending on a cold cache, descending on the warm one, descending on a cold cache of a freshly loaded world), plus configurations that serve all epochs or only the middle one through the deprecated index formats (size-less cid-to-offset index, deprecated sig-exists index); under each configuration EVERY archived slot and signature is requested through JSON-RPC getBlock/getTransaction/getBlockTime in each encoding and gRPC GetBlock/GetTransaction/GetBlockTime (direct and through the Get stream) and compared with generator-side ground truth; non-trivial = request whose answer contains transaction payloads"
 	R.Assume("generator constraints so that the oracle asks only what the statement fixes: every block has at least one entry, a non-zero block time, a position index on every transaction, and its parent is the previous archived block; slot 0's block time/height/parent are not compared (the server substitutes genesis values)")
 	shapes := c02Shapes()
 	var eps []*vEpoch
@@ -477,43 +477,53 @@ func TestVerif_C02(t *testing.T) {
 			if R.Expired() {
 				return
 			}
-			cache := vkNewCache()
-			var loaded []*vEpoch
-			var real []*Epoch
-			okLoad := true
-			for i, e := range eps {
-				if mask&(1<<i) == 0 {
-					continue
-				}
-				cfgPath := e.ConfigPath
-				if cf.legacy == 1 || (cf.legacy == 2 && i == 1) {
-					cfgPath = legacyCfg[e]
-				}
-				ep, err := vkLoadEpoch(cfgPath, cache)
-				if err != nil {
-					R.Violation("C02|load-epoch", fmt.Sprintf("epoch %d built by the real indexer does not load: %v", e.Truth.Epoch, err), map[string]interface{}{"epoch": e.Truth.Epoch})
-					okLoad = false
-					break
-				}
-				loaded = append(loaded, e)
-				real = append(real, ep)
-			}
-			if !okLoad {
-				continue
-			}
-			w := &c02World{eps: loaded, multi: vkNewMulti(conc, real...)}
-			w.h = newMultiEpochHandler(w.multi, nil)
 			cfgName := fmt.Sprintf("epochs=%03b conc=%d", mask, conc)
 			if cf.legacy != 0 {
 				cfgName += fmt.Sprintf(" legacy-format=%d", cf.legacy)
 			}
-			for pass, reverse := range []bool{false, true} {
-				if w.dead {
+			var loaded []*vEpoch
+			// two worlds per configuration, each with a cache of its own: passes 0 (ascending, cold) and 1
+			// (descending, warm) share one; pass 2 walks a freshly loaded world in descending order, so that a
+			// block is requested BEFORE its parent, the previous epoch's last block included (cold)
+			for _, passes := range [][]int{{0, 1}, {2}} {
+				cache := vkNewCache()
+				loaded = nil
+				var real []*Epoch
+				okLoad := true
+				for i, e := range eps {
+					if mask&(1<<i) == 0 {
+						continue
+					}
+					cfgPath := e.ConfigPath
+					if cf.legacy == 1 || (cf.legacy == 2 && i == 1) {
+						cfgPath = legacyCfg[e]
+					}
+					ep, err := vkLoadEpoch(cfgPath, cache)
+					if err != nil {
+						R.Violation("C02|load-epoch", fmt.Sprintf("epoch %d built by the real indexer does not load: %v", e.Truth.Epoch, err), map[string]interface{}{"epoch": e.Truth.Epoch})
+						okLoad = false
+						break
+					}
+					loaded = append(loaded, e)
+					real = append(real, ep)
+				}
+				if !okLoad {
 					break
 				}
-				w.checkAll(loaded, reverse, encs, func(f c02Finding) {
-					R.Violation("C02|"+f.class, fmt.Sprintf("[%s pass=%d] %s", cfgName, pass, f.detail), map[string]interface{}{"mask": mask, "conc": conc, "pass": pass, "legacy": cf.legacy})
-				}, func(nt bool) { R.Case(nt, "") })
+				w := &c02World{eps: loaded, multi: vkNewMulti(conc, real...)}
+				w.h = newMultiEpochHandler(w.multi, nil)
+				for _, pass := range passes {
+					if w.dead {
+						break
+					}
+					pass := pass
+					w.checkAll(loaded, pass != 0, encs, func(f c02Finding) {
+						R.Violation("C02|"+f.class, fmt.Sprintf("[%s pass=%d] %s", cfgName, pass, f.detail), map[string]interface{}{"mask": mask, "conc": conc, "pass": pass, "legacy": cf.legacy})
+					}, func(nt bool) { R.Case(nt, "") })
+				}
+				for _, ep := range real {
+					ep.Close()
+				}
 			}
 			R.Outcome(cfgName + ":done")
 			R.Sample(map[string]interface{}{"config": cfgName, "slots": func() (n int) {
@@ -527,9 +537,6 @@ func TestVerif_C02(t *testing.T) {
 				}
 				return
 			}()})
-			for _, ep := range real {
-				ep.Close()
-			}
 		}
 	}
 	_ = strings.TrimSpace
